@@ -46,7 +46,8 @@ StrPrefixed(p) == CASE p = Da  -> {F1, F2, F5, F6, F3}          \* "src/ab/y.ts"
 MoveToC(f) == CASE f = F1 -> C1 [] f = F2 -> C2 [] f = F5 -> C5 [] f = F6 -> C6
 
 IsSourceExt(f) == f \notin {F5, C5}                              \* .ts/.tsx/.js/.jsx
-Contents == {"v1", "v2", "bin"}                                   \* "bin" = not valid UTF-8
+Contents == {"v1", "v2", "v0", "bin"}     \* "bin" = not valid UTF-8; "v0" = a source file WITHOUT any iso literal (added after
+                                          \* seeded/C20b-files-without-iso-not-tracked: a tracked file that loses its last literal)
 
 VARIABLES tree, schema, db, dbSchema, alive, devs, hist
 vars == <<tree, schema, db, dbSchema, alive, devs, hist>>
